@@ -83,6 +83,13 @@ def delete (G : Registry) (h : Coll) (name : Bytes) : R Coll := do
   let k ← formatKey G name
   if (h.get? k).isSome then pure (h.del k) else throw (.escape "KeyError")
 
+/-- `headers.setdefault(name, value)`: the stored value when the field is there, else the field is set -/
+def setdefault (G : Registry) (h : Coll) (name value : Bytes) : R (Bytes × Coll) := do
+  let k ← formatKey G name
+  match h.get? k with
+  | some v => pure (v, h)
+  | none => pure (value, h.put k value)
+
 /-- `headers.pop(name, None)` -/
 def pop (G : Registry) (h : Coll) (name : Bytes) : R (Option Bytes × Coll) := do
   let k ← formatKey G name
